@@ -381,6 +381,9 @@ func (a *Analysis) CheckC14(rep *Report) {
 					if g := globalWritten(e); g != "" {
 						rep.Ob("H2-deterministic", name+":"+g, false, epos, "Calc writes package-level state "+g)
 					}
+					if r := addrRoot(e.Dst); r != nil && r.Op == "param" && r.ID == 0 {
+						rep.Ob("H2-service-stateless", name+":store", false, epos, "Calc stores into the registered (shared) service object: "+e.Dst.Pretty())
+					}
 				case EvLoadGlobal:
 					rep.Ob("H2-deterministic", name+":"+e.Recv.Pretty(), false, epos, "Calc reads package-level state "+e.Recv.Pretty())
 				case EvCall:
@@ -390,6 +393,15 @@ func (a *Analysis) CheckC14(rep *Report) {
 				}
 			})
 			for _, r := range p.Ret {
+				if r.Contains(func(x *Val) bool {
+					if x.Op != "init" {
+						return false
+					}
+					rt := addrRoot(x.Args[0])
+					return rt != nil && rt.Op == "param" && rt.ID == 0
+				}) {
+					rep.Ob("H2-service-stateless", name+":ret", false, pos, "the result depends on state held in the service object: "+r.Pretty())
+				}
 				if r.Contains(func(x *Val) bool {
 					return x.Op == "call" && (strings.HasPrefix(x.Name, "time.") || strings.HasPrefix(x.Name, "math/rand"))
 				}) {
